@@ -27,6 +27,15 @@ CLAIMS = {
              "by the implementation-side oracle); no newline inside DT/TM/DTM values.",
         technique="Lean 4 proof (case analysis over the model, decide +kernel on finite domains and generated tables) + exhaustive-grid differential correspondence",
         design="DESIGN.md §5 C13"),
+    'C15': dict(
+        text="Lean theorems for every string: get_message_type / get_message_info (the functions the MLLP server routes on) return or raise ParserError / "
+             "InvalidEncodingChars, never a crash, and parse_message fails exactly as the header does before touching the tables. For parse_message / "
+             "to_er7 / validate the model keeps every partial Python operation as an explicit crash branch and is compared with /repo on truncation-at-"
+             "every-byte, mutation and junk streams (exception class included); the implementation-side oracle decides the property there (partial: "
+             "reachability of the crash branches is not a theorem; it is false for the malformed table rows of finding D2).",
+        note=NOTE_COMMON + "validate() is run with the standard tables; cased non-ASCII input and multi-character delimiters are outside the model.",
+        technique="Lean 4 proof (case analysis of the header parser) + differential correspondence on malformed input incl. exception kinds",
+        design="DESIGN.md §5 C15"),
 }
 
 PENDING = {}
